@@ -252,7 +252,7 @@ func PlayMode(beh M, rng *rand.Rand, proj *Projection, mode int) ([]M, error) {
 	}
 	x.Shutdown()
 	// the user's global parameter map after the run (must be untouched)
-	x.Log.Append(mem.Ev{"k": "x-global", "conn": conn.ID, "m": paramsObj(x.Global)})
+	x.Log.Append(mem.Ev{"k": "x-global", "conn": conn.ID, "m": paramsObj(x.Global), "tlsok": x.TLSIntact()})
 	// everything the callbacks retained still has its content (C18)
 	x.Log.Append(mem.Ev{"k": "x-intact", "conn": conn.ID, "ok": x.Intact()})
 	plainMu.Lock()
@@ -369,7 +369,7 @@ func playStream(beh M, rng *rand.Rand, proj *Projection, mode int) ([]M, error) 
 		}
 	}
 	x.Shutdown()
-	x.Log.Append(mem.Ev{"k": "x-global", "conn": conn.ID, "m": paramsObj(x.Global)})
+	x.Log.Append(mem.Ev{"k": "x-global", "conn": conn.ID, "m": paramsObj(x.Global), "tlsok": x.TLSIntact()})
 	x.Log.Append(mem.Ev{"k": "x-intact", "conn": conn.ID, "ok": x.Intact()})
 	p := &Projector{Conn: conn.ID, Proj: proj, SkipPre: proj != nil && proj.SkipPreamble}
 	for _, e := range x.Log.Events() {
